@@ -91,6 +91,32 @@ def translate(repo: Path) -> dict:
     reprobe = order.count(0) >= 2 and order.index(1) < len(order) - 1 - order[::-1].index(0)
     contains = T.find_def(os_tree, "PackBasedObjectStore.__contains__")
     corder = _probe_order(contains, "PackBasedObjectStore.__contains__")
+    creprobe = corder.count(0) >= 2 and corder.index(1) < len(corder) - 1 - corder[::-1].index(0)
+    # __iter__: is the pack directory scanned again after the loose listing?
+    it = T.find_def(os_tree, "PackBasedObjectStore.__iter__")
+    loose_at = [n.lineno for n in ast.walk(it) if isinstance(n, ast.Call) and isinstance(n.func, ast.Attribute)
+                and n.func.attr == "_iter_loose_objects"]
+    scans_at = [n.lineno for n in ast.walk(it) if isinstance(n, ast.Call) and isinstance(n.func, ast.Attribute)
+                and n.func.attr == "_update_pack_cache"]
+    if len(loose_at) != 1 or not scans_at or min(scans_at) > loose_at[0]:
+        raise T.TranslateError(f"__iter__: expected a pack scan before one loose listing (scans {scans_at}, loose {loose_at})")
+    iter_rescan = any(x > loose_at[0] for x in scans_at)
+    # get_object_mtime: most recent copy?
+    gom = T.find_def(os_tree, "DiskObjectStore.get_object_mtime")
+    uses_max = any(isinstance(n, ast.Call) and isinstance(n.func, ast.Name) and n.func.id == "max" for n in ast.walk(gom))
+    n_getmtime = sum(1 for n in ast.walk(gom) if isinstance(n, ast.Attribute) and n.attr == "getmtime")
+    if n_getmtime != 2:
+        raise T.TranslateError(f"get_object_mtime: expected two getmtime calls (loose file, pack), found {n_getmtime}")
+    # _complete_pack: does the 'already packed' branch refresh the kept pack's mtime?
+    cp = T.find_def(os_tree, "DiskObjectStore._complete_pack")
+    branch = None
+    for n in ast.walk(cp):
+        if isinstance(n, ast.If) and isinstance(n.test, ast.Compare) and isinstance(n.test.comparators[0], ast.Name) \
+                and n.test.comparators[0].id == "pack_name":
+            branch = n
+    if branch is None:
+        raise T.TranslateError("_complete_pack: `if pack.name() == pack_name` not found")
+    refreshes = any(isinstance(n, ast.Attribute) and n.attr == "utime" for n in ast.walk(branch))
     progs = _recorded_programs(repo)
 
     def prog(name):
@@ -113,17 +139,28 @@ def getRawProbeOrder : List Nat := {order}
 def getRawReprobesPacks : Bool := {"true" if reprobe else "false"}
 /-- probes of `PackBasedObjectStore.__contains__` -/
 def containsProbeOrder : List Nat := {corder}
+def containsReprobesPacks : Bool := {"true" if creprobe else "false"}
+/-- does `__iter__` scan the pack directory again after the loose listing (and list the packs that appeared)? -/
+def iterRescansAfterLoose : Bool := {"true" if iter_rescan else "false"}
+/-- does `DiskObjectStore.get_object_mtime` return the most recent mtime over all copies? -/
+def getObjectMtimeUsesMax : Bool := {"true" if uses_max else "false"}
+/-- does `_complete_pack` refresh the mtime of an existing pack that already holds the objects? -/
+def completePackRefreshesMtime : Bool := {"true" if refreshes else "false"}
 /-- file-system program of `repack()` recorded from the real code on the canonical scenario (two old packs, two loose
 objects, one of them also packed); (tag, argument) with tags 0 installData 1 installIdx 2 removeData 3 removeIdx
 4 addLoose 5 delLoose; packs and objects numbered by first mutation -/
 def repackProgram : List (Nat × Nat) := {prog("repack")}
 def repackNewPack : Nat := {progs["repack"]["new"]}
+/-- the loose objects (numbered as in the program) that end up in the new pack: their deletion must wait for it -/
+def repackProtected : List Nat := {progs["repack"]["prot"]}
 /-- `pack_loose_objects()` on the same scenario -/
 def packLooseProgram : List (Nat × Nat) := {prog("packloose")}
 def packLooseNewPack : Nat := {progs["packloose"]["new"]}
+def packLooseProtected : List Nat := {progs["packloose"]["prot"]}
 /-- `garbage_collect(repo, grace_period=0)` on the same scenario plus an unreachable loose and an unreachable packed object -/
 def gcProgram : List (Nat × Nat) := {prog("gc")}
 def gcNewPack : Nat := {progs["gc"]["new"]}
+def gcProtected : List Nat := {progs["gc"]["prot"]}
 end Dulwich.Gen.GC
 """
     return {"GC": src}
@@ -174,7 +211,7 @@ def _abstract_program(events, objdir_rel="objects"):
             prog.append((ACT["delLoose"], ob(m.group(1) + m.group(2))))
         elif m and call in ("rename", "replace"):
             prog.append((ACT["addLoose"], ob(m.group(1) + m.group(2))))
-    return prog, new
+    return prog, new, objs, packs
 
 
 def _record_main():
@@ -222,8 +259,10 @@ def _record_main():
             else:
                 garbage_collect(r, grace_period=0)
         r.close()
-        prog, new = _abstract_program(rec.events)
-        out[name] = {"prog": prog, "new": new}
+        prog, new, objs, packs = _abstract_program(rec.events)
+        newname = [n for n, k in packs.items() if k == new]
+        in_new = _idx_ids(root / "objects" / "pack" / (newname[0] + ".idx")) if newname else set()
+        out[name] = {"prog": prog, "new": new, "prot": sorted(k for h, k in objs.items() if h in in_new)}
     print(json.dumps(out))
 
 
